@@ -1,3 +1,4 @@
+import PGT.Proofs.RoundTripEmbed
 import PGT.Proofs.FromFlat
 import PGT.Proofs.RoundTrip
 import PGT.Proofs.RoundTripOneof
@@ -278,5 +279,41 @@ theorem C04_oneof_example_runs :
         | _ => false)
      | _ => false) = true := by
   decide
+
+-- ------------------------------------------------------------------------------------------------------
+-- the round trip with children of nullable embedded messages and custom types as well (proofs: `Proofs/RoundTripEmbed.lean`).
+-- `RT3OKs` extends `RT2OKs` (`C04_rt3_extends_rt2`): children of a nullable embedded message of every kind (written through the
+-- parent pointer, which CopyFrom allocates when a child attribute is known) and custom kinds (the string-based hooks of the model
+-- round-trip: `C04_hook_roundtrip`). A non-nil embedded message whose children are all zero reads back as nil
+-- (`C04_embed_zero_children_witness`) – the normal form the property names; `nfEqField` compares children through `getVal`.
+
+/-- **C04 with children of nullable embedded messages and custom types, every depth.** As `C04_roundtrip_oneof`, and fields may
+be children of a nullable embedded message (every kind: scalars, messages, lists, maps, custom) and may be of a custom type
+(string-like values, the hooks of the harness), at every nesting depth. Proof: `copyTo_renders3` (CopyTo renders, with what
+`Spec.rendersVal` leaves open for these two templates) composed with `fromFields_reads3`. -/
+theorem C04_roundtrip_all (ov : List (String × String)) (m : Msg) (obj : GoVal) (atys : List (String × TfTy))
+    (hto : ToOKs m.fields obj atys) (hrt : RT3OKs m.fields obj) :
+    ∃ r b, copyTo m obj (.obj false false none (some atys)) = .ok r ∧ r.diags = [] ∧
+      copyFrom ov m r.tf (.struct []) = .ok b ∧ b.diags = [] ∧ c04Check m obj b.obj = true := by
+  intros; apply PGT.roundtrip_embed <;> assumption
+
+/-- **the hooks of the harness round-trip** on string-like values: reading what the `CopyTo<S>` hook wrote gives the value
+back in the normal form of C04 (nil ≡ empty list) -/
+theorem C04_hook_roundtrip (rep : Bool) (x : GoVal) (a : TfVal) (ht : CustomTyped rep x) (h : custRenders rep x a = true) :
+    custNfEq rep x (hookFrom rep a) = true := by
+  intros; apply PGT.hook_roundtrip <;> assumption
+
+theorem C04_rt3_extends_rt2 : ∀ (fs : List Field) (obj : GoVal), RT2OKs fs obj → RT3OKs fs obj := by
+  intros; apply PGT.rt3oks_of_rt2oks <;> assumption
+
+/-- **A non-nil embedded message whose children are all zero comes back as a nil pointer.** CopyTo renders every child null
+(C20), so CopyFrom never allocates the parent: in the struct read back `P` is nil, in the original it is not. The round trip is
+still the identity *in the normal form of C04*: `Spec.nfEqField` compares the children through `Spec.getVal`, which reads a
+child through a nil parent as its zero value, and the IR has no field for the parent pointer itself – `c04Check` is `true`
+(so `roundtrip_embed` needs no hypothesis that excludes this value). "nil embedded message ≡ embedded message with zero
+children" is part of the normal form, next to "nil ≡ empty list". -/
+theorem C04_embed_zero_children_witness : type_of% PGT.embed_zero_children_witness :=
+  PGT.embed_zero_children_witness
+
 
 end PGT.Props.C04
